@@ -46,7 +46,8 @@ def damage(rng, dst_root, tag, delete=False, force=None):
         for ext_ in ("", "-wal", "-shm", "-journal"):
             try: os.unlink(p + ext_)
             except OSError: pass
-        c = sqlite3.connect(p); c.execute("CREATE TABLE checksums (path TEXT PRIMARY KEY, checksum BLOB)"); c.execute("INSERT INTO checksums VALUES ('a', x'00')"); c.commit(); c.close()
+        c = sqlite3.connect(p); c.execute("CREATE TABLE checksums (path TEXT PRIMARY KEY, mtime_secs INTEGER NOT NULL, size INTEGER NOT NULL, checksum_type TEXT NOT NULL, checksum BLOB NOT NULL, updated_at INTEGER NOT NULL)")   # an older layout: no mtime_nanos — the index on updated_at can still be created, every lookup fails
+        c.execute("INSERT INTO checksums VALUES ('a', 1, 1, 'fast', x'00', 1)"); c.commit(); c.close()
         return ".sy-checksums.db:db-old-schema"
     if kind == "truncate":
         if os.path.exists(p):
